@@ -1,9 +1,9 @@
 TECH = "bounded model checking of the real code with Kani/CBMC (SAT): symbolic inputs, property as assertion, counterexample replayed natively"
 META = {
  "C01": dict(
-    text="Totality decided by the solver per payload type: each of the 19 ADS-B / Comm-B payload readers (plus the two Comm-B-gated hypotheses) is run on ALL 2^56 payload contents through the entry point its caller uses; every Rust-level abort (panic, arithmetic overflow with the release profile's overflow checks, out-of-bounds index, failed unwrap) and every loop bound is a CBMC assertion. Frames cut to every length below the one their downlink format prescribes are rejected (14 concrete first bytes covering DF 0,1,4,5,11,14,16-21,24,31, content symbolic). Thorough tier: the real DF20/DF21 selector readers on every MB field with the register hypotheses stubbed (glue: is_empty, gates, exactly the accepted hypotheses stored), whole frames through Message::try_from for DF 0/4/5/11/16/17 (11 type-code bytes)/18/19/24 with the discriminating bytes concrete, Display of every accepted ADS-B payload, too-long frames, determinism (DF11), BDS 2,1.",
+    text="Totality decided by the solver per payload type: each of the 19 ADS-B / Comm-B payload readers (plus the two Comm-B-gated hypotheses) is run on ALL 2^56 payload contents through the entry point its caller uses; every Rust-level abort (panic, arithmetic overflow with the release profile's overflow checks, out-of-bounds index, failed unwrap) and every loop bound is a CBMC assertion. The hand-written 13-bit altitude and identity field readers of the surveillance headers on all 2^16 contents. Frames cut to every length below the one their downlink format prescribes are rejected (14 concrete first bytes covering DF 0,1,4,5,11,14,16-21,24,31, content symbolic). Thorough tier: the real DF20/DF21 selector readers on every MB field with the register hypotheses stubbed (glue: is_empty, gates, exactly the accepted hypotheses stored), whole frames through Message::try_from for DF 0/4/5/11/16/17 (11 type-code bytes)/18/19/24 with the discriminating bytes concrete, Display of every accepted ADS-B payload, too-long frames, determinism (DF11), BDS 2,1.",
     design_ref="DESIGN.md 3/C01, 7.2",
-    note="Trusted: Kani/CBMC; the bitvec-free deku reader model (validated natively against real deku on every run); tracing/regex/once_cell cfg(kani) forks; fmt/libm stubs; selstubs.rs for the selector harnesses. Whole-frame DF20/DF21 through Message::try_from (did not finish in 2 h) and Debug rendering are outside; the quick tier decides the payload readers and the length discipline only.",
+    note="Trusted: Kani/CBMC; the bitvec-free deku reader model (validated natively against real deku on every run); tracing/regex/once_cell cfg(kani) forks; fmt/libm stubs; selstubs.rs for the selector harnesses. Whole-frame DF20/DF21 through Message::try_from (did not finish in 2 h) and Debug rendering are outside; the quick tier decides the payload readers, the header field readers and the too-short half of the length discipline only; frames LONGER than prescribed are rejected only behind the complete parse (a concrete 7-byte frame followed by symbolic bytes was still in symbolic execution after 2 h): that half of the length clause is outside the registered tiers.",
     technique=TECH),
  "C02": dict(
     text="Solver verdicts over all frames: CRC_TABLE equals the bit-serial remainder for all 256 indices; one table step equals 8 bit-serial steps for every remainder and byte (inductive step for any length); modes_checksum equals the remainder modulo 0x1FFF409 for ALL 2^112 and 2^56 frames; linearity; every 1-bit, 2-bit and <=24-bit burst error pattern has a non-zero syndrome; payload||crc^address always yields the address; the AP field reader reports the crc context; the DF17 CRC gate of Message::from_reader_with_ctx lets EVERY 112-bit DF17 frame (three capability values, type code 0) pass iff its remainder is zero (paths ended just past the gate). Thorough: the same gate with the complete decode behind it, address recovery through Message::try_from for DF 0/4/5/16, end-to-end corruption of valid DF17 frames.",
@@ -11,9 +11,9 @@ META = {
     note="Trusted: Kani/CBMC; deku model (incl. its Kani-only cut-point hook: paths end at the second reader construction, i.e. between the gate and the payload parse); oracle = bit-serial GF(2) division written from Annex 10. Whole-frame address recovery is thorough-tier (50 min each); whole-frame DF20/DF21 is outside (composition argument stated in DESIGN 7.2).",
     technique=TECH + "; differential against a bit-serial reference"),
  "C03": dict(
-    text="For every payload type the decoder's fields are compared with the value the standard assigns to the code found at the standard's bit positions, over ALL 2^56 payloads (every code of every field simultaneously): BDS 0,9 velocity components / track / ground speed (atan2 and hypot replaced by ghost-state contract stubs so that argument order, sign, scale and wrap are inside the check), airspeed, heading, vertical rate, GNSS-baro; BDS 0,6 movement table and track; BDS 0,5 counts; BDS 6,2 / 4,0 selected altitude, QNH, heading; BDS 5,0 / 6,0; the 24-bit address. Thorough: all 64^8 call signs (BDS 0,8 / 2,0); the DF20 sentence (a payload is labelled BDS 0,5 iff accepted with an altitude equal to the header altitude) on the real DF20 selector reader for every MB field and header altitude.",
+    text="For every payload type the decoder's fields are compared with the value the standard assigns to the code found at the standard's bit positions, over ALL 2^56 payloads (every code of every field simultaneously): BDS 0,9 velocity components / track / ground speed (atan2 and hypot replaced by ghost-state contract stubs so that argument order, sign, scale and wrap are inside the check), airspeed, heading, vertical rate, GNSS-baro; BDS 0,6 movement table and track; BDS 0,5 counts; BDS 6,2 / 4,0 selected altitude, QNH, heading; BDS 5,0 / 6,0; the 24-bit address; the 13-bit / 12-bit altitude codes and the identity code against the Annex 10 reference (the C13 harnesses, all codes). Thorough: all 64^8 call signs (BDS 0,8 / 2,0); the DF20 sentence (a payload is labelled BDS 0,5 iff accepted with an altitude equal to the header altitude) on the real DF20 selector reader for every MB field and header altitude.",
     design_ref="DESIGN.md 3/C03",
-    note="Trusted: Kani/CBMC; deku model; field positions and scale factors written from DO-260B / Annex 10 in harness/src/c03.rs; selstubs.rs (other register hypotheses) for df20_gate. Comm-B registers are compared only when their plausibility filters accept the payload. Altitude/squawk values are C13.",
+    note="Trusted: Kani/CBMC; deku model; field positions and scale factors written from DO-260B / Annex 10 in harness/src/c03.rs; selstubs.rs (other register hypotheses) for df20_gate. Comm-B registers are compared only when their plausibility filters accept the payload. ",
     technique=TECH + "; oracle from the standard, ghost-state stubs for libm"),
  "C04": dict(
     text="Integer cell model of the CPR encoder as oracle (no floating-point encoder in the loop): for every pair of extended latitude counts whose cells share a latitude in [-90, 90] the decoder returns the centre of the later report's cell (1e-9 deg) or nothing, and nothing only when the two cells are in different NL bands of the closed formula; same for longitude at one latitude per NL band where tractable; any pair of reports gives latitude in [-90, 90] and longitude in [-180, 180); same-parity pairs give nothing; the decoder's NL table equals the closed formula at every even cell latitude.",
@@ -56,7 +56,7 @@ META = {
     note="Trusted: Kani/CBMC; once_cell model (numeric_reg's Lazy table); format! stubbed for n_reg/hl_reg/numeric_reg. Outside: stride_reg (Lazy table of 39 mappings: one concrete call still in symbolic execution after 18 min), hence tail() as a whole, injectivity of the N / HL / numeric strings and across stride ranges, aircraft_information's regex/serde_json lookup.",
     technique=TECH),
  "C15": dict(
-    text="Flarm::from_record with the REAL cipher on every 26-byte packet, every timestamp and every f64 reference bit pattern (NaN / inf included): a record or an error, no panic; finite numbers; track in [0, 360). Other lengths one harness each. Discrete fields (address, kind, type, flags, GPS status, altitude, recovered plaintext) equal the independent packer's bit slices for every 160-bit block. Position kernels (the private decode_latitude / decode_longitude, called directly): at three concrete references per coordinate EVERY true position in the decodable window decodes to the centre of its 128e-7 degree bucket. Thorough: cipher equivalence with textbook XXTEA per word (kissat), references b and c, more lengths.",
+    text="Flarm::from_record with the REAL cipher on every 26-byte packet, every timestamp and every f64 reference bit pattern (NaN / inf included): a record or an error, no panic; finite numbers; track in [0, 360). Other lengths one harness each. The key schedule is decided where the real code hands the key to the cipher (btea and obscure as recording stubs: table selection by bit 23 of the time, time >> 6, address << 8, seed, mask, word order, for every timestamp and address) and obscure() itself against the reference mixing function for every 64-bit key (kissat). Discrete fields (address, kind, type, flags, GPS status, altitude, recovered plaintext) equal the independent packer's bit slices for every 160-bit block. Position kernels (the private decode_latitude / decode_longitude, called directly): at three concrete references per coordinate EVERY true position in the decodable window decodes to the centre of its 128e-7 degree bucket. Thorough: cipher equivalence with textbook XXTEA per word (kissat), references b and c, more lengths.",
     design_ref="DESIGN.md 3/C15, 7.2",
     note="Trusted: Kani/CBMC; deku model; atan2 contract stub; in the field harnesses the private btea is stubbed to the identity under Kani (natively the plaintext is encrypted by an independent XXTEA encryptor and decrypted by the real code); private kernels reached through the stub-as-accessor trick. Position reconstruction with a symbolic reference is outside (SAT cannot push 2^43 cases through the decoder's float multiplication).",
     technique=TECH + "; differential against an independent packer / XXTEA"),
